@@ -2,7 +2,7 @@
 # usage: try_seeded.sh <patch.diff> <ID> [tier]  -- apply a seeded change to /repo, run the check, undo it.
 # A patch made before a hook commit may conflict with probe lines; conflicts are resolved by
 # taking the patch's side (probe lines inside the conflicting hunk are dropped for that run).
-P="$1"; ID="$2"; TIER="${3:-quick}"
+P="$(realpath "$1")"; ID="$2"; TIER="${3:-quick}"
 cd /repo || exit 2
 git diff --quiet || { echo "repo dirty"; exit 2; }
 if ! git apply "$P" 2>/dev/null; then
